@@ -305,9 +305,14 @@ def eval_style_case(case):
             fail("build", "-", f"raised-{type(e).__name__}", f"building the document raised {type(e).__name__}: {e}")
             return fails, stats
         names = [s.name for s in styles]
+        edits = case.get("edits") or {}
         pa = _tmp("a")
         try:
             doc.save(pa)
+            if edits:  # the style is edited after the first save of the open document, then saved again
+                for a, v in edits.items():
+                    setattr(styles[0], a, to_api(a, v, 0))
+                doc.save(pa)
         except Exception as e:  # noqa: BLE001
             fail("save", "-", f"raised-{type(e).__name__}", f"save (nothing read before) raised {type(e).__name__}: {e}")
             return fails, stats
@@ -319,6 +324,11 @@ def eval_style_case(case):
         pb = _tmp("b")
         try:
             doc.save(pb)
+            if edits:
+                for a, v in edits.items():
+                    setattr(styles[0], a, to_api(a, v, 0))
+                views["live-before-save"] = read_table(t)
+                doc.save(pb)
         except Exception as e:  # noqa: BLE001
             fail("save-after-read", "-", f"raised-{type(e).__name__}", f"save after reading cell.style/cell.border of every cell raised {type(e).__name__}: {e}")
             return fails, stats
@@ -332,7 +342,9 @@ def eval_style_case(case):
     final = {}
     for r, c, si, _how in case["cells"]:
         final[(r, c)] = si
-    fps = [lib_fingerprint(s, i) for i, s in enumerate(case["styles"])]
+    eff = [dict(s) for s in case["styles"]]
+    eff[0].update(case.get("edits") or {})
+    fps = [lib_fingerprint(s, i) for i, s in enumerate(eff)]
     border_want = model_view(edges, None, NR, NC)
     for vname, view in views.items():
         from_file = vname.startswith("file")
@@ -340,7 +352,7 @@ def eval_style_case(case):
             got = view[rc]
             if rc in final:
                 si = final[rc]
-                spec = case["styles"][si]
+                spec = eff[si]
                 want = expected_snap(spec, names[si], si)
                 stats["style_evaluations"] += 1
             else:
@@ -362,7 +374,7 @@ def eval_style_case(case):
                     cls = "float32-rounding"
                 elif a in CELL_STYLE_ATTRS and from_file:
                     others = [j for j in range(len(case["styles"])) if j != si and fps[j] == fps[si]]
-                    if any(expected_snap(case["styles"][j], "", j)[a] == g for j in others):
+                    if any(expected_snap(eff[j], "", j)[a] == g for j in others):
                         cls = "cell-style-fingerprint-collision"
                 fail(vname, a, cls, f"{vname}: cell {rc} styled with {spec} reports {a}={g!r}, given {w!r}")
             wantv = written.get(rc, base[rc]["value"])
@@ -582,6 +594,17 @@ def gen_style_cases(tier, seed):
     for h1, h2 in itertools.product(methods, repeat=2):
         cases.append({"kind": "style", "family": "layout", "styles": triples[0], "cells": [[1, 1, 0, h1], [1, 2, 0, h1], [1, 1, 1, h2], [2, 2, 2, h2]],
                       "ctor": "kwargs", "autoname": False})
+    # (e) a style edited after the first save of the open document (update path), every attribute
+    ei = 0
+    for a in ATTRS:
+        if a == "bg_image":
+            continue  # an image can only be given at creation (add_style stores the file)
+        vals = pc[a] if tier == "thorough" else [pc[a][(seed + 2) % len(pc[a])]]
+        for v in vals:
+            tr = triples[0] if ei % 2 == 0 else [{}, triples[0][1], triples[0][2]]
+            cases.append({"kind": "style", "family": "edit-after-save", "styles": tr, "edits": {a: v},
+                          "cells": [[1, 1, 0, "obj"], [1, 2, 0, "name"], [2, 1, 1, "obj"], [0, 2, 2, "wobj"]], "ctor": "kwargs", "autoname": False})
+            ei += 1
     # (d) the shortcut visible in update_cell_styles: styles whose concatenated fingerprints coincide
     collide = [
         [{"bg_color": [1, 23, 4]}, {"bg_color": [12, 3, 4]}],
@@ -726,9 +749,10 @@ class BorderSpec:
     borders: "all" (B1, B2, B3 at every step) | "cycle" (any first; then B1->B2, B2->B3, B3->B1 or B3 again)
              | "cycle3" (any first; then B1->B2, B2->B3, B3->B1) | "one" (B1 first; then as cycle3)."""
 
-    def __init__(self, geometry="all", borders="all"):
+    def __init__(self, geometry="all", borders="all", reopen=False):
         self.geometry = geometry
         self.borders = borders
+        self.reopen = reopen  # every stroke after the first is preceded by ONE save + reopen of the document ("rs" events)
 
     def initial(self, init_id):
         shape, rot = init_id.split("|")
@@ -748,6 +772,7 @@ class BorderSpec:
         st.line = None
         st.last = None
         st.n = 0
+        st.reopened = 0
         return st
 
     def enabled(self, st, depth_left):
@@ -762,7 +787,7 @@ class BorderSpec:
             if self.geometry == "collinear" and st.line is not None and stroke_line(side, r, c) != st.line:
                 continue
             for b in bids:
-                evs.append(["s", side, r, c, ln, b])
+                evs.append(["rs" if self.reopen and st.n >= 1 and not st.reopened else "s", side, r, c, ln, b])
         return evs
 
     def _kind(self, st, r, c, si):
@@ -786,7 +811,7 @@ class BorderSpec:
                     cls = "missing"
                 elif w is None:
                     cls = "extra"
-                elif list(g) in [[x[0], list(x[1]), x[2]] for x in st.older.get(e, [])]:
+                elif g in [_tup(x) for x in st.older.get(e, [])]:
                     cls = "stale"
                 else:
                     cls = "wrong"
@@ -797,7 +822,18 @@ class BorderSpec:
         return list(out.values())
 
     def apply(self, st, ev):
-        _, side, r, c, ln, bid = ev
+        kind, side, r, c, ln, bid = ev
+        if kind == "rs":  # continue on the document as the library reads it back from its own file
+            p = _tmp("r")
+            try:
+                st.doc.save(p)
+                st.doc = Document(p)
+                st.t = st.doc.sheets[0].tables[0]
+                st.reopened += 1
+            except Exception as e:  # noqa: BLE001
+                _rm(p)
+                return [({"mechanism": "border", "view": "file", "class": f"raised-{type(e).__name__}", "where": "-"}, f"save/reopen before {ev} raised {type(e).__name__}: {e}")], "exception"
+            _rm(p)
         lk = st.looks[bid]
         border = st.b3 if bid == "B3" else Border(lk[0], RGB(*lk[1]), lk[2])
         es = stroke_edges(side, r, c, ln)
@@ -871,10 +907,12 @@ class BorderSpec:
                 b = getattr(cell, "_border", None)
                 orders.append(tuple(getattr(getattr(b, "_" + s, None), "_order", None) for s in SIDES) if b is not None else None)
         return repr((sorted(st.edges.items()), st.rect, st.line if self.geometry == "collinear" else None,
-                     st.last if self.borders != "all" else None, getattr(st.b3, "_order", None), fp, orders))
+                     st.last if self.borders != "all" else None, st.reopened, getattr(st.b3, "_order", None), fp, orders))
 
 
 SPECS = {f"{g}-{b}": BorderSpec(g, b) for g in ("all", "collinear") for b in ("all", "cycle", "cycle3", "one")}
+SPECS["collinear-one-reopen"] = BorderSpec("collinear", "one", reopen=True)
+SPECS["collinear-cycle3-reopen"] = BorderSpec("collinear", "cycle3", reopen=True)
 
 
 def border_plan(tier, seed):
@@ -889,6 +927,7 @@ def border_plan(tier, seed):
         return [
             ("all-cycle", [plain], 2, False),
             ("collinear-cycle3", [plain, merged(seed)], 2, True),
+            ("collinear-one-reopen", [plain], 2, False),
         ]
     return [
         ("all-all", [plain, merged(seed), merged(seed + 1)], 2, False),
@@ -896,6 +935,8 @@ def border_plan(tier, seed):
         ("collinear-all", [plain], 3, False),
         ("collinear-one", [plain], 3, True),
         ("collinear-cycle3", [merged(seed + i) for i in range(3)], 2, True),
+        ("collinear-cycle3-reopen", [plain], 2, True),
+        ("collinear-one-reopen", [merged(seed), merged(seed + 1)], 2, True),
     ]
 
 
@@ -936,7 +977,10 @@ def main():
     run.extra["style_families"] = {k[len("style_cases_"):]: v for k, v in run.counters.items() if k.startswith("style_cases_")}
 
     # ---- part 2: borders (state-space search)
+    plan_only = {int(x) for x in os.environ.get("C15_PLAN", "").split(",") if x.strip()}  # development aid: a subset of the border plan
     for i, (sname, inits, depth, probe) in enumerate([] if only == "styles" else border_plan(args.tier, args.seed)):
+        if plan_only and i not in plan_only:
+            continue
         nb = len(run.failures)
         before = dict(run.counters)
         explore.explore(f"c15-{sname}", SPECS[sname], inits, depth, run, jobs=args.jobs, probe=probe, tag=f"#{i}@d{depth}")
@@ -955,7 +999,8 @@ def main():
     run.floor(">= 100 attribute pairs styled", sum(1 for k in oc if k.startswith("spec:") and "," in k) >= 100)
     run.floor(">= 150 style documents and >= 3 fixtures compared read-before-save vs not", run.counters["style_cases"] >= 150 and run.counters["fixture_cases"] >= 3)
     run.floor("fixtures contributed cells with borders", run.counters["fixture_cells_with_border"] >= 1)
-    run.floor(">= 1 history in which two strokes overlap, >= 1 refused stroke on a merged edge", oc.get("s:overlap", 0) >= 1 and oc.get("s:refused", 0) >= 1)
+    run.floor(">= 1 history in which two strokes overlap, >= 1 refused stroke on a merged edge, >= 1 stroke over an existing one after save+reopen",
+              oc.get("s:overlap", 0) >= 1 and oc.get("s:refused", 0) >= 1 and oc.get("rs:overlap", 0) >= 1)
     run.floor(">= 20000 stroke transitions and >= 1000 save/reopen probes", run.counters["transitions"] >= 20000 and run.counters["probes"] >= 1000)
     run.assume("border looks are three representatives (solid/dashes/dots, widths 2.0/3.0/0.35); widths needing more than 2 decimals, the 'none' pattern, tables other than 3x3, "
                "more than one merged rectangle and histories longer than the depth bound are not explored")
